@@ -905,11 +905,9 @@ def check_single(ctx, n):
 # ----------------------------------------------------------------------------- check
 
 def coqchk_own_wanted(ctx):
-    """(before ctx.prove, which starts the library's coqchk unless VERIF_COQCHK=0)"""
-    if not ctx.thorough or os.environ.get("VERIF_COQCHK") is not None:
-        return False
-    os.environ["VERIF_COQCHK"] = "0"
-    return True
+    """The library's coqchk pass now runs with -bytecode-compiler yes itself (core.coqchk_start), so the private pass of
+    this module is switched off; the functions below are kept for reference only."""
+    return False
 
 
 def coqchk_own_start(ctx):
